@@ -313,7 +313,7 @@ pub fn is_char_device(meta: &Metadata) -> bool {
 }
 
 pub fn mode_is_char_device(mode: u32) -> bool {
-    mode & S_IFCHR == S_IFCHR
+    mode & S_IFMT == S_IFCHR
 }
 
 pub fn is_block_device(meta: &Metadata) -> bool {
@@ -365,6 +365,7 @@ const S_ISGID: u32 = 0o2000;
 #[cfg(unix)]
 const S_ISVTX: u32 = 0o1000;
 
+const S_IFMT: u32 = 0o170000;
 const S_IFBLK: u32 = 0o60000;
 #[cfg(unix)]
 const S_IFDIR: u32 = 0o40000;
